@@ -4,9 +4,10 @@
 (* export of complete behaviours.                                          *)
 EXTENDS LogSync, TLC, Json
 
-VARIABLE hist
+VARIABLES hist,    \* one record per step (export)
+          plan     \* export runs only: at which step the store change / the crash happens
 mcvars == <<store, store0, slogs, cap, pc, local, needs, todo, acc, logsLeft, outq, sendLogsLen,
-            doneSent, doneRecv, dedup, chan, sent, events, nmut, hist>>
+            doneSent, doneRecv, dedup, chan, sent, events, nmut, hist, plan>>
 
 ---------------------------------------------------------------------------
 (* Values for LogsChoices (sets of tuples cannot be written in a .cfg)      *)
@@ -40,26 +41,26 @@ CanStepIsEnabled == \A p \in Peer : CanStep(p) <=> ENABLED PeerNext(p)
 
 ---------------------------------------------------------------------------
 (* Checking specifications (hist stays empty)                               *)
-MCInit == Init /\ hist = <<>>
+MCInit == Init /\ hist = <<>> /\ plan = [mut |-> 0, crash |-> 0]
 \* one named action per action of the specification (TLC reports coverage per name)
-M_Start(p) == Start(p) /\ UNCHANGED hist
-M_ReadHeights(p) == ReadHeights(p) /\ UNCHANGED hist
-M_PutHave(p) == PutHave(p) /\ UNCHANGED hist
-M_ReceiveHave(p) == ReceiveHave(p) /\ UNCHANGED hist
-M_ReadSize(p) == ReadSize(p) /\ UNCHANGED hist
-M_PutPreSync(p) == PutPreSync(p) /\ UNCHANGED hist
-M_ReceivePreSyncOrDone(p) == ReceivePreSyncOrDone(p) /\ UNCHANGED hist
-M_SyncRecv(p) == SyncRecv(p) /\ UNCHANGED hist
-M_SyncRecvClosed(p) == SyncRecvClosed(p) /\ UNCHANGED hist
-M_SyncNextAuthor(p) == SyncNextAuthor(p) /\ UNCHANGED hist
-M_BurstReadLog(p) == BurstReadLog(p) /\ UNCHANGED hist
-M_BurstSendOp(p) == BurstSendOp(p) /\ UNCHANGED hist
-M_SendDone(p) == SendDone(p) /\ UNCHANGED hist
-M_SyncElse(p) == SyncElse(p) /\ UNCHANGED hist
-M_SinkFail(p) == SinkFail(p) /\ UNCHANGED hist
-M_Crash(p) == Crash(p) /\ UNCHANGED hist
-M_Mutate == Mutate /\ UNCHANGED hist
-M_Terminated == Terminated /\ UNCHANGED hist
+M_Start(p) == Start(p) /\ UNCHANGED <<hist, plan>>
+M_ReadHeights(p) == ReadHeights(p) /\ UNCHANGED <<hist, plan>>
+M_PutHave(p) == PutHave(p) /\ UNCHANGED <<hist, plan>>
+M_ReceiveHave(p) == ReceiveHave(p) /\ UNCHANGED <<hist, plan>>
+M_ReadSize(p) == ReadSize(p) /\ UNCHANGED <<hist, plan>>
+M_PutPreSync(p) == PutPreSync(p) /\ UNCHANGED <<hist, plan>>
+M_ReceivePreSyncOrDone(p) == ReceivePreSyncOrDone(p) /\ UNCHANGED <<hist, plan>>
+M_SyncRecv(p) == SyncRecv(p) /\ UNCHANGED <<hist, plan>>
+M_SyncRecvClosed(p) == SyncRecvClosed(p) /\ UNCHANGED <<hist, plan>>
+M_SyncNextAuthor(p) == SyncNextAuthor(p) /\ UNCHANGED <<hist, plan>>
+M_BurstReadLog(p) == BurstReadLog(p) /\ UNCHANGED <<hist, plan>>
+M_BurstSendOp(p) == BurstSendOp(p) /\ UNCHANGED <<hist, plan>>
+M_SendDone(p) == SendDone(p) /\ UNCHANGED <<hist, plan>>
+M_SyncElse(p) == SyncElse(p) /\ UNCHANGED <<hist, plan>>
+M_SinkFail(p) == SinkFail(p) /\ UNCHANGED <<hist, plan>>
+M_Crash(p) == Crash(p) /\ UNCHANGED <<hist, plan>>
+M_Mutate == Mutate /\ UNCHANGED <<hist, plan>>
+M_Terminated == Terminated /\ UNCHANGED <<hist, plan>>
 MCNext ==
     \/ \E p \in Peer :
           \/ M_Start(p)
@@ -81,7 +82,7 @@ MCNext ==
     \/ M_Mutate
     \/ M_Terminated
 MCSpec == MCInit /\ [][MCNext]_mcvars
-MCFairSpec == MCSpec /\ \A p \in Peer : WF_mcvars(PeerNext(p) /\ UNCHANGED hist)
+MCFairSpec == MCSpec /\ \A p \in Peer : WF_mcvars(PeerNext(p) /\ UNCHANGED <<hist, plan>>)
 
 \* vacuity witnesses: the interesting branches are reachable (used as "must be violated" probes
 \* by hand, see NOTES.md; not part of the registered configs)
@@ -123,7 +124,7 @@ Obs(p, act) ==
      took |-> IF Len(chan'[Other(p)]) < Len(chan[Other(p)]) THEN <<MsgJson(Head(chan[Other(p)]))>> ELSE <<>>,
      ev |-> IF Len(events'[p]) > Len(events[p]) THEN <<Last(events'[p])>> ELSE <<>>]
 
-Log(p, act) == hist' = Append(hist, Obs(p, act))
+Log(p, act) == hist' = Append(hist, Obs(p, act)) /\ UNCHANGED plan
 
 \* bf = TRUE: "burst first" - SyncRecv only when no author is left (every such behaviour can be
 \* forced on the real select!, which picks a ready branch at random: the harness withholds the
@@ -149,27 +150,40 @@ MutObs(p, k, kind, arg) ==
     [p |-> p, act |-> "Mutate", kind |-> kind, a |-> k[1], l |-> k[2], arg |-> arg,
      now |-> AscSeq(store'[p][k])]
 
-HMutate == \E p \in Peer, k \in Key :
+\* the k-th store change happens exactly at step plan.mut + 4k, the crash at step plan.crash
+HMutate == Len(hist) = plan.mut + 4 * nmut /\ UNCHANGED plan /\ \E p \in Peer, k \in Key :
     \/ \E n \in 1..(MaxSeq + 1) : ConcurrentPrune(p, k, n) /\ hist' = Append(hist, MutObs(p, k, "prune", n))
     \/ \E s \in SeqNum : ConcurrentDelete(p, k, s) /\ hist' = Append(hist, MutObs(p, k, "delete", s))
     \/ ConcurrentAppend(p, k) /\ hist' = Append(hist, MutObs(p, k, "append", MaxOrNone(store[p][k]) + 1))
 
-HCrash == \E p \in Peer : Crash(p) /\ hist' = Append(hist, [p |-> p, act |-> "Crash"])
+HCrash == Len(hist) = plan.crash /\ UNCHANGED plan /\ \E p \in Peer : Crash(p) /\ hist' = Append(hist, [p |-> p, act |-> "Crash"])
 
 ---------------------------------------------------------------------------
 (* Export specifications (no Terminated stuttering: a behaviour ends where  *)
 (* no peer can step)                                                        *)
 
+\* The step numbers of the environment actions are part of the initial state, so that an
+\* exhaustive export enumerates every point and a simulation (which draws the initial state
+\* uniformly but would otherwise take an enabled environment action almost at once) spreads them.
+MaxAt == 45
+Never == 1000
+MutPoints == IF MaxMut = 0 THEN {Never} ELSE 1..MaxAt
+CrashPoints == IF Faults THEN (1..MaxAt) \cup {Never} ELSE {Never}
+GenInit == Init /\ hist = <<>> /\ plan \in [mut : MutPoints, crash : CrashPoints]
+\* one random plan per configuration (for big domains under -simulate)
+GenInitRandom == Init /\ hist = <<>>
+                 /\ plan = [mut |-> RandomElement(MutPoints), crash |-> RandomElement(CrashPoints)]
+
 \* all interleavings, all select! choices (for -simulate)
 GenAllNext == (\E p \in Peer : HPeer(p, FALSE)) \/ HMutate \/ HCrash
-GenAllSpec == MCInit /\ [][GenAllNext]_mcvars
+GenAllSpec == GenInitRandom /\ [][GenAllNext]_mcvars
 
 \* one schedule per configuration: A runs whenever it can, bursts first; mutations and crashes
 \* at every point
 GenDetNext ==
     \/ IF ENABLED HPeer("A", TRUE) THEN HPeer("A", TRUE) ELSE HPeer("B", TRUE)
     \/ HMutate \/ HCrash
-GenDetSpec == MCInit /\ [][GenDetNext]_mcvars
+GenDetSpec == GenInit /\ [][GenDetNext]_mcvars
 
 Quiescent == \A p \in Peer : ~CanStep(p)
 
